@@ -286,7 +286,7 @@ class Script(object):
 
         :return Script:
         """
-        data_length = None
+        data_length = 0
         if isinstance(script, bytes):
             data_length = len(script)
             script = BytesIO(script)
